@@ -580,6 +580,19 @@ pub fn c12(g: &mut Gen) {
         g.group(lines);
     }
     g.group(vec!["wr int 0 8 : p1 c".to_string(), "wr int 65 8 : p1 c".to_string(), "wr int 8 default : p1 p2 p300 c".to_string()]);
+    // `Extend` with every item type (u8 / u16 / u32 / u64), into writers narrower and wider than the item type, mixed with push
+    let mut lines = Vec::new();
+    for w in [3u64, 8, 9, 13, 16, 17, 32, 33, 64] {
+        for b in [0u64, 5, 100] {
+            let v8: Vec<String> = (0..7).map(|_| (g.rng.next() & 0xFF).to_string()).collect();
+            let v16: Vec<String> = (0..5).map(|_| (g.rng.next() & 0xFFFF).to_string()).collect();
+            let v32: Vec<String> = (0..4).map(|_| (g.rng.next() & 0xFFFF_FFFF).to_string()).collect();
+            lines.push(format!("wr int {} {} : x{} l c", w, b, v8.join(",")));
+            lines.push(format!("wr int {} {} : p{} y{} z{} l", w, b, g.rng.word(), v16.join(","), v32.join(",")));
+            lines.push(format!("wr int {} {} : z{} x{} e{} c c", w, b, v32.join(","), v8.join(","), g.rng.word()));
+        }
+    }
+    g.group(lines);
     // raw writer: bit and 0..64-bit integer pushes mixed, buffer sizes incl. 0 and non-multiples of 64
     for b in [0u64, 1, 63, 64, 65, 127, 128, 130, 1000] {
         let mut lines = Vec::new();
@@ -634,7 +647,7 @@ pub fn c13(g: &mut Gen) {
         let mut lines = Vec::new();
         for (ty, off, _len) in &parts {
             lines.push(format!("map {} {} trunc=- x=ok : {}", ty, off, fs));
-            if *ty == "int" { lines.push(format!("map intget {} trunc=- x=ok : {}", off, fs)); }
+            if *ty == "int" { lines.push(format!("map intget {} trunc=- x=ok : {}", off, fs)); lines.push(format!("map intgetor {} trunc=- x=ok : {}", off, fs)); }
             if *ty == "raw" { lines.push(format!("map rawbits {} trunc=- x=ok : {}", off, fs)); lines.push(format!("map rawints {} trunc=- x=ok : {}", off, fs)); }
         }
         // integer views of the widest widths (items straddle words at every alignment)
